@@ -1597,7 +1597,7 @@ func AggrFunExpr(query *Query, current Map, expr sqlparser.AggrFunc, opts ...Exp
 		if err != nil {
 			return nil, err
 		}
-		return result, nil
+		return asNumber(result), nil
 	}
 	// the memo is keyed by the whole call so that SUM(a) and SUM(b) do not share an entry
 	key := sqlparser.String(expr)
@@ -1612,10 +1612,20 @@ func AggrFunExpr(query *Query, current Map, expr sqlparser.AggrFunc, opts ...Exp
 		if err != nil {
 			return nil, err
 		}
+		result = asNumber(result)
 		query.singletonExecutions[key] = result
 		return result, nil
 	}
 	return rs, nil
+}
+
+// asNumber turns the integer an aggregate such as COUNT returns into the float64 every other
+// number in a query is, so that it can be used by arithmetic in an enclosing query
+func asNumber(value any) any {
+	if n, ok := value.(int); ok {
+		return float64(n)
+	}
+	return value
 }
 
 func FuncArgReader(query *Query, current Map, selectExprs []sqlparser.Expr, opts ...ExprOption) ([]any, error) {
